@@ -7,7 +7,7 @@
 (*    NonInterleavedFile / InterleavedFile / MmbFile and FileView::read_block.*)
 (* Units are sectors (256 bytes).                                          *)
 (***************************************************************************)
-EXTENDS Naturals, Sequences, FiniteSets, TLC, Json
+EXTENDS Layout, Json       \* Layout.tla: FAIL, ROffset (R), View and MRead (M), shared with ReadStack.tla
 
 CONSTANTS Cyls, Spts, MmbSlots
 
@@ -17,23 +17,6 @@ vars == <<kind, cyl, spt, side, x>>
 Kinds == {"plain1", "plain2", "inter", "mmb"}    \* one-sided .ssd/.sdd, two-sided .ssd/.sdd, .dsd/.ddd, .mmb
 SidesOf(k) == IF k = "plain1" THEN {0} ELSE IF k = "mmb" THEN MmbSlots ELSE {0, 1}
 SurfaceLen(k, c, p) == IF k = "mmb" THEN 800 ELSE c * p
-
------------------------------------------------------------------------------
-(* R: documented offset of (side, track, sector), in sectors; FAIL beyond the surface *)
-FAIL == 100000000
-ROffset(k, c, p, h, t, s) ==
-    IF k = "mmb" THEN (IF t < 80 /\ s < 10 THEN 32 + h * 800 + t * 10 + s ELSE FAIL)     \* 8192 + slot * 204800 bytes
-    ELSE IF ~(t < c /\ s < p) THEN FAIL
-    ELSE IF k = "inter" THEN (t * 2 + h) * p + s         \* tracks alternate by side
-    ELSE (h * c + t) * p + s                             \* each side contiguous
-
-(* M: the view and its arithmetic *)
-View(k, c, p, h) ==
-    IF k = "mmb" THEN [skip |-> 32 + h * 800, take |-> 800, leave |-> 0, total |-> 800]
-    ELSE IF k = "inter" THEN [skip |-> h * p, take |-> p, leave |-> p, total |-> c * p]
-    ELSE [skip |-> h * (c * p), take |-> c * p, leave |-> 0, total |-> c * p]
-MRead(v, sec) == IF v.take = 0 \/ sec >= v.total THEN FAIL
-                 ELSE v.skip + (sec \div v.take) * (v.take + v.leave) + (sec % v.take)
 
 -----------------------------------------------------------------------------
 Init == /\ kind \in Kinds
